@@ -35,9 +35,12 @@ SIG_LOOP = "C20:section-loop-never-advances"
 SIG_MISSING = "C20:opcode-without-template"
 SIG_UBO = "C20:ubo-tests-signed-overflow"
 SIG_WRAP = "C20:signed-wrap-exploited-by-gcc"
+SIG_ALIAS = "C20:type-punned-access-exploited-by-gcc"
+SIG_EXPR = "C20:expr-data-refused"
+SIG_BLK = "C20:block-typed-param-assert"
 SIG_LD = "C20:ldouble-const-misprinted"
 SIG_REF = "C20:scalar-data-ref-is-value"
-SIG_VARIADIC = "C20:variadic-proto-needs-c23"
+SIG_VARIADIC = "C20:variadic-proto-without-named-param"
 
 
 def s64(x):
@@ -173,7 +176,7 @@ def build_grid_funcs(rows, imms):
     g.add(("gap", "mul"), "i_i", "  mul t, a, 2\n  div t, t, 2\n  eq r, t, a\n  ret r", locs="i64:r, i64:t", shape="a*2/2==a")
     g.add(("gap", "adds"), "i_i", "  ext32 x, a\n  adds t, x, 1\n  ext32 t, t\n  lt r, x, t\n  ret r", locs="i64:r, i64:t, i64:x", shape="a<a+1 (32)")
     g.add(("gap", "neg"), "i_i", "  neg t, a\n  lt u, t, 0\n  gt v, a, 0\n  eq r, u, v\n  ret r", locs="i64:r, i64:t, i64:u, i64:v", shape="(-a<0)==(a>0)")
-    g.add(("gap", "loop"), "i_i", "  mov r, 0\n  and x, a, 255\n  add x, x, 9223372036854775800\n  mov y, x\n@l:\n  add r, r, 1\n  add y, y, 1\n"
+    g.add(("gap", "loop"), "i_i", "  mov r, 0\n  and x, a, 7\n  add x, x, 9223372036854775800\n  mov y, x\n@l:\n  add r, r, 1\n  add y, y, 1\n"
                                   "  bge @l, y, x\n  ret r", locs="i64:r, i64:x, i64:y", shape="loop until wrap")
     # floating point / long double rows
     fp = []
@@ -480,9 +483,15 @@ def stage_templates(ck, st, rows, quick, viol):
     return g, info
 
 
-def classify_template(cls, rep):
+def classify_template(cls, rep, st=None):
     """signature of a known defect class, derived from the failing points of the minimised replay"""
     key = rep["key"]
+    if cls in ("engines", "gap-exploited", "crash") and st is not None:
+        pts = [p[2] for p in rep["points"]]
+        if all(p[1] == p[0] and p[3] == p[0] and p[2] != p[0] for p in pts):
+            sigs = attribute_ub(st, rep["mir"], rep["case"]["plan"], False)
+            if len(sigs) == 1:
+                return sigs[0]
     if cls == "ubo-signed":
         return SIG_UBO
     if cls == "gap-exploited":
@@ -492,6 +501,29 @@ def classify_template(cls, rep):
         if all(p[0] == p[1] or len(key) > 2 for p in rep["points"]) and all(int(r, 16) == 0 for p in rep["points"] for r in p[2][1:]):
             return SIG_UGE
     return None
+
+
+def attribute_ub(st, text, plan, is_prog):
+    """a case where only the optimised build WITHOUT -fwrapv -fno-strict-aliasing differs: which option repairs it?
+    -> list of signatures (derived from the observed behaviour of the four builds)"""
+    engs = ["interp", "O2", "O2v", "O2a"]
+    rc, lines, err = st.engine(text, plan, "ubq", engs=engs)
+    if is_prog:
+        res, errs = progtie.parse(lines)
+        rows_ = [r["results"] if not r["same"] else ["", "", "", ""] for r in res]
+        rows_ = [[x.endswith("*") or x.startswith("!") for x in r] for r in rows_]
+    else:
+        ev, errs = parse_R(lines, 4)
+        rows_ = [[x != rs[0] for x in rs] for _, _, rs in ev]
+    if rc != 0 or errs or not rows_ or not any(r[1] for r in rows_):
+        return []
+    v_ok = not any(r[2] for r in rows_)
+    a_ok = not any(r[3] for r in rows_)
+    if v_ok and not a_ok:
+        return [SIG_WRAP]
+    if a_ok and not v_ok:
+        return [SIG_ALIAS]
+    return [SIG_WRAP, SIG_ALIAS]
 
 
 # ------------------------------------------------------------------------------------------------ stage B
@@ -531,6 +563,7 @@ def stage_programs(ck, st, nprogs, per_batch, viol, known_present):
             fails += fl
             nev += n
     classes = collections.OrderedDict()
+    ub_counts = {}
     for f in fails:
         if f["kind"] == "engine-abort":
             key = ("abort", str(f["results"])[:60])
@@ -543,15 +576,15 @@ def stage_programs(ck, st, nprogs, per_batch, viol, known_present):
         f = fl[0]
         text = f["prog"].text()
         plan = progtie.plan_for([f["entry"]], mirgen.ARGSETS) if not f["args"] else "prog " + f["entry"] + " " + " ".join(f["args"]) + "\n"
-        sig = None
+        sig, sigs = None, []
         if key[0] == "differ" and key[1] == (False, False, True, False):
             # only the build without -fwrapv/-fno-strict-aliasing at -O2 differs: which of the two options repairs it?
-            rc, lines, err = st.engine(text, plan, "wrapq", engs=["interp", "O2", "O2v", "O2a"])
-            res, errs = progtie.parse(lines)
-            if res and all((not r["same"]) and len(r["results"]) == 4 and r["results"][1].endswith("*") and not r["results"][2].endswith("*")
-                           for r in res if not r["same"]):
-                sig = SIG_WRAP
+            sigs = attribute_ub(st, text, plan, True)
+            if sigs:
+                sig = sigs[0]
                 n_wrap += len(fl)
+                for s_ in sigs:
+                    ub_counts[s_] = ub_counts.get(s_, 0) + len(fl)
         rep = {"stage": "programs", "kind": f["kind"], "entry": f["entry"], "plan": plan, "engines": ENGS,
                "results_per_engine": f["results"], "same_class_count": len(fl), "how_to_rerun": "./check C20 --replay <this file>"}
         if sig is None:
@@ -561,12 +594,15 @@ def stage_programs(ck, st, nprogs, per_batch, viol, known_present):
                 ck.log("shrink failed:", ex)
         rep["mir"] = text
         rep["case"] = {"kind": "prog", "mir": text, "plan": plan, "engines": ENGS}
+        for extra in sigs[1:]:
+            viol.append(("program:" + extra, dict(rep, signature=extra, what="(same program) " + extra)))
         viol.append(("program:" + (sig or "unlisted"), dict(rep, signature=sig,
                      what=(f"compiled translation and MIR_interp disagree on a well-defined program ({f['entry']}): " +
                            " ".join(f"{e}={r}" for e, r in zip(ENGS, f["results"])))[:400] if f["kind"] == "engines-differ"
                      else f"translation pipeline aborted on a well-defined program: {str(f['results'])[:240]}")))
     return {"programs": nprogs, "evaluations": nev * len(ENGS), "constructs": stats, "rewritten_known_defect_insns": nrew,
-            "failure_classes": len(classes), "programs_where_only_O2_without_fwrapv_differs": n_wrap, "options": opts}
+            "failure_classes": len(classes), "programs_where_only_the_O2_build_without_fwrapv_fno_strict_aliasing_differs": n_wrap,
+            "of_these_repaired_by": ub_counts, "options": opts}
 
 
 # ------------------------------------------------------------------------------------------------ stage C
@@ -801,18 +837,23 @@ def stage_corpus(ck, st, quick, viol):
         info["modules"] += 1
         fe = features(text)
         rc = r["emit_rc"]
+        ccerr = (r.get("cc_err_gnu2x") or "") + (r.get("cc_err_default") or "")
         if rc in (41, 42, -99):
             cls, sig = "no-termination(section loop)", SIG_LOOP
         elif rc == 3 and "multiple result" in r["err"].lower():
             cls, sig = "multi-result (outside C20's quantifier)", "skip"
-        elif rc != 0 and ("Assertion" in r["err"] or rc in (-6, 134)) and (fe & {"switch", "ldmov"}):
+        elif rc == 3 and "expr data" in r["err"]:
+            cls, sig = "explicit refusal: expr data item", SIG_EXPR
+        elif rc != 0 and "out_insn: Assertion `0'" in r["err"] and (fe & {"switch", "ldmov"}):
             cls, sig = "assert: opcode without template", SIG_MISSING
+        elif rc != 0 and "out_type: Assertion `MIR_blk_type_p (t)'" in r["err"]:
+            cls, sig = "assert: rblk-typed parameter", SIG_BLK
         elif rc != 0:
             cls, sig = f"emit-fails rc={rc} {sorted(fe)}", None
         elif r.get("cc_default") == 0:
             cls, sig = "translated+accepted", "ok"
-        elif r.get("cc_gnu2x") == 0 and "variadic-noname" in fe:
-            cls, sig = "accepted only as C23 (`(...)` prototype)", SIG_VARIADIC
+        elif "named argument before" in ccerr and "variadic-noname" in fe and ccerr.count("error") == ccerr.count("named argument before"):
+            cls, sig = "rejected by gcc: `(...)` prototype", SIG_VARIADIC
         else:
             cls, sig = "translated, rejected by gcc", None
         info[cls] += 1
@@ -963,11 +1004,11 @@ def body(ck, st, quick):
             if not rep.get("property_fails", True):
                 ck.broken_ties.append({"kind": "correspondence", "name": cls + ":" + ":".join(map(str, rep["key"])), "first_diff": {k: rep[k] for k in ("a", "b", "observed", "model", "documented", "why")}})
                 continue
-            sig = classify_template(cls, rep)
             m = g.meta[rep["func"]]
             plan = "".join(f"call {rep['func']} {rep['sig']} " + " ".join(p[:2] if rep['sig'].index('_') == 2 else p[:1]) + "\n" for p in rep["points"][:6])
             rep["case"] = {"kind": "grid", "mir": rep["mir"], "plan": plan, "engines": ENGS,
                            "fp_class": rep["sig"].split("_")[1] if rep["sig"].split("_")[1] in "fdl" else None}
+            sig = classify_template(cls, rep, st)
             rep["how_to_rerun"] = "./check C20 --replay <this file>"
             rep["what"] = (f"{':'.join(map(str, rep['key']))} shape {rep['shape']}: {rep['why']} (a={rep['a']} b={rep['b']} observed={rep['observed']} "
                            f"documented={rep['documented']}, {rep['count']} grid points)")
